@@ -1,86 +1,205 @@
 /-
-  Model of paged iteration (C15; logical core):
-    conn.go    executeQuery, `case *resultRowsFrame` (lines ~1437-1464): the Iter of one page and the
-               nextIter carrying a copy of the query with the received paging state; prefetch position
-               clamped to ≥ 1; no nextIter when !has_more_pages or when auto paging is disabled
+  Model of paged iteration (C15), from the application's consumer down to the requests the server
+  receives.
+
+    conn.go    executeQuery: the request built from the Query (`len(qry.pageState) > 0` ⇒ paging state
+               sent, `qry.pageSize > 0` ⇒ page size sent, EXECUTE with skip-metadata or QUERY; one
+               PREPARE before the first EXECUTE of a statement that is not in the cache), the answer
+               `case *resultRowsFrame` (lines ~1437-1464): the Iter of one page and the nextIter carrying
+               a COPY of the query with the received paging state; prefetch position clamped to ≥ 1; no
+               nextIter when !has_more_pages or when auto paging is disabled; `case
+               *RequestErrUnprepared`: evict the statement and run executeQuery again with the same
+               query; `case error`: an Iter holding the error.
     session.go Iter.Scan / iterScanner.Next / MapScan / SliceMap: deliver rows pos..numRows-1 of the
                current page, then switch to `next.fetch()` (sync.Once: fetched exactly once, by the
                consumer or earlier by the asynchronous prefetch), stop on `err` or when there is no next.
-  The asynchronous prefetch only decides WHEN the one fetch of a nextIter happens, so it does not
-  appear in the functional model: each nextIter is evaluated once.
+               Query.PageState: caller-supplied state, auto paging disabled.
+
+  The server is a SCRIPT: the k-th QUERY/EXECUTE it receives is answered with the k-th reply of the
+  list, whatever the request carries (what it carries is recorded and is part of the result), so the
+  page list is the input and the model predicts rows, final error and the exact request sequence.
+  The asynchronous prefetch only decides WHEN the one fetch of a nextIter happens (the requests of
+  one query form a chain: request i+1 is built from answer i), so it does not appear as an action:
+  each nextIter is evaluated once.
 -/
 namespace Paging
 
-variable {ρ σ ε : Type}
+abbrev Bytes := List UInt8
 
-/-- what the cluster answers to a request carrying a paging state (none = first page):
-    rows and the paging state of the page (some = has_more_pages), or an error -/
-abbrev Exec (ρ σ ε : Type) := Option σ → Except ε (List ρ × Option σ)
+/-- why a fetch failed, as the application sees it -/
+inductive Fail where
+  | srv (code : Nat)   -- ERROR frame from the server
+  | closed             -- connection closed while the request was outstanding
+  | timeout            -- no answer within the driver's timeout
+  | ctx                -- the caller's context ended while the request was outstanding
+  | exhausted          -- (harness) the script has no answer left
+  deriving DecidableEq, Repr
 
-structure NextIter (σ : Type) where
-  req : σ          -- newQry.pageState = copy of the page's paging state
-  pos : Nat        -- prefetch threshold
+/-- one scripted answer of the server -/
+inductive Reply where
+  | page (rows : List Int) (state : Option Bytes)   -- `some s` = has_more_pages with paging state `s`
+  | fail (f : Fail)
+  | unprepared                                       -- ERROR 0x2500 carrying the statement id
+  deriving DecidableEq, Repr
 
-structure Iter (ρ σ ε : Type) where
-  err  : Option ε
+/-- the part of gocql.Query the fetch path reads; `ident` stands for statement, values, consistency
+    and every other option (copied verbatim by `*newQry = *qry`) -/
+structure Qry where
+  ident : Nat
+  prepared : Bool
+  skipMeta : Bool          -- !(cfg.DisableSkipMetadata || qry.disableSkipMetadata)
+  pageSize : Int
+  pageState : Bytes        -- nil and empty are the same to `len(qry.pageState) > 0`
+  disableAutoPage : Bool
+  deriving DecidableEq, Repr
+
+/-- a request as the server sees it -/
+inductive Req where
+  | prepare
+  | exec (ident : Nat) (execute : Bool) (skipMeta : Bool) (state : Option Bytes) (pageSize : Option Int)
+  deriving DecidableEq, Repr
+
+def Req.isExec : Req → Bool
+  | .prepare => false
+  | .exec .. => true
+
+/-- conn.go executeQuery, request side -/
+def request (q : Qry) : Req :=
+  .exec q.ident q.prepared (q.prepared && q.skipMeta)
+    (if q.pageState.length > 0 then some q.pageState else none)
+    (if q.pageSize > 0 then some q.pageSize else none)
+
+/-- prepareStatement: a PREPARE goes out iff the statement is prepared and not in the cache -/
+def prep (cached : Bool) (q : Qry) : List Req := if q.prepared && !cached then [.prepare] else []
+
+structure NextIter where
+  qry : Qry         -- newQry: copy of the query, pageState = copy of the page's paging state
+  pos : Nat         -- prefetch threshold
+  deriving Repr
+
+structure Iter where
+  err  : Option Fail
   pos  : Nat
-  rows : List ρ              -- numRows = rows.length
-  next : Option (NextIter σ)
+  rows : List Int                 -- numRows = rows.length
+  next : Option NextIter
+  pagingState : Bytes             -- meta.pagingState (Iter.PageState())
+  deriving Repr
 
 /-- prefetch threshold: `int((1 - prefetch) * numRows)` clamped to ≥ 1; the float expression is an
     arbitrary function of numRows here -/
 def clampPos (pp : Nat → Nat) (numRows : Nat) : Nat := if pp numRows < 1 then 1 else pp numRows
 
-/-- conn.go executeQuery reduced to paging -/
-def executeQuery (exec : Exec ρ σ ε) (pp : Nat → Nat) (disableAutoPage : Bool) (req : Option σ) : Iter ρ σ ε :=
-  match exec req with
-  | .error e => { err := some e, pos := 0, rows := [], next := none }
-  | .ok (rows, st) =>
-    { err := none, pos := 0, rows := rows,
-      next := match st with
-        | some s => if disableAutoPage then none else some { req := s, pos := clampPos pp rows.length }
-        | none => none }
+/-- conn.go executeQuery, `case *resultRowsFrame` -/
+def pageIter (pp : Nat → Nat) (q : Qry) (rows : List Int) (st : Option Bytes) : Iter :=
+  { err := none, pos := 0, rows := rows, pagingState := st.getD [],
+    next := match st with
+      | some s => if q.disableAutoPage then none
+                  else some { qry := { q with pageState := s }, pos := clampPos pp rows.length }
+      | none => none }
 
-/-- result of consuming an iterator to the end: rows delivered, requests sent for following pages, final error -/
-structure Out (ρ σ ε : Type) where
-  rows : List ρ
-  reqs : List (Option σ)
-  err  : Option ε
+/-- conn.go executeQuery, `case error` / exec error -/
+def errIter (f : Fail) : Iter := { err := some f, pos := 0, rows := [], next := none, pagingState := [] }
 
-/-- the consumer loop (Scan until it returns false, then Close): `fuel` bounds the number of page switches -/
-def drain (exec : Exec ρ σ ε) (pp : Nat → Nat) : Nat → Iter ρ σ ε → Out ρ σ ε
-  | 0, _ => { rows := [], reqs := [], err := none }
-  | f + 1, it =>
-    match it.err with
-    | some e => { rows := [], reqs := [], err := some e }
-    | none =>
-      let here := it.rows.drop it.pos
-      match it.next with
-      | none => { rows := here, reqs := [], err := none }
-      | some n =>
-        let o := drain exec pp f (executeQuery exec pp false (some n.req))   -- next.fetch(), once
-        { rows := here ++ o.rows, reqs := some n.req :: o.reqs, err := o.err }
+/-- result of consuming an iterator to the end: rows delivered, requests the server received, final error -/
+structure Out where
+  rows : List Int
+  reqs : List Req
+  err  : Option Fail
+  deriving DecidableEq, Repr
 
-/-- a whole iteration: the first request carries the caller's page state (none normally) -/
-def iterate (exec : Exec ρ σ ε) (pp : Nat → Nat) (disableAutoPage : Bool) (fuel : Nat) (first : Option σ) : Out ρ σ ε :=
-  let o := drain exec pp fuel (executeQuery exec pp disableAutoPage first)
-  { o with reqs := first :: o.reqs }
+/-- A fetch of `q` is due (Query.Iter, or nextIter.fetch), `cached` says whether the statement is in
+    the prepared cache; the consumer (Scan until false, then Close) drains every Iter it gets:
+    rows `pos..` of the page, then `next.fetch()`. Recursion over the script: every fetch consumes
+    one reply. -/
+def run (pp : Nat → Nat) : List Reply → Bool → Qry → Out
+  | [], c, q => { rows := [], reqs := prep c q ++ [request q], err := some .exhausted }
+  | .unprepared :: rest, c, q =>
+    -- evictPreparedID, then `return c.executeQuery(ctx, qry)`: same query again
+    let o := run pp rest false q
+    { o with reqs := prep c q ++ request q :: o.reqs }
+  | .fail f :: _, c, q =>
+    let it := errIter f
+    { rows := it.rows.drop it.pos, reqs := prep c q ++ [request q], err := it.err }
+  | .page rows st :: rest, c, q =>
+    let it := pageIter pp q rows st
+    let here := it.rows.drop it.pos
+    match it.next with
+    | none => { rows := here, reqs := prep c q ++ [request q], err := none }
+    | some n =>
+      let o := run pp rest true n.qry      -- next.fetch(), once
+      { rows := here ++ o.rows, reqs := prep c q ++ request q :: o.reqs, err := o.err }
+
+/-- the documented manual paging loop of the application (harness): one Iter per page with
+    `PageState(st)` (auto paging disabled), resumed from `Iter.PageState()` until that is empty -/
+def manual (pp : Nat → Nat) : List Reply → Bool → Qry → Out
+  | [], c, q => { rows := [], reqs := prep c q ++ [request q], err := some .exhausted }
+  | .unprepared :: rest, c, q =>
+    let o := manual pp rest false q
+    { o with reqs := prep c q ++ request q :: o.reqs }
+  | .fail f :: _, c, q => { rows := [], reqs := prep c q ++ [request q], err := some f }
+  | .page rows st :: rest, c, q =>
+    let it := pageIter pp { q with disableAutoPage := true } rows st
+    if it.pagingState.length = 0 then { rows := it.rows, reqs := prep c q ++ [request q], err := none }
+    else
+      let o := manual pp rest true { q with pageState := it.pagingState }
+      { rows := it.rows ++ o.rows, reqs := prep c q ++ request q :: o.reqs, err := o.err }
 
 /-- one Scan on the current page (no page switch): the row at `pos`, `pos` advanced -/
-def scanRow (it : Iter ρ σ ε) : Option (ρ × Iter ρ σ ε) :=
+def scanRow (it : Iter) : Option (Int × Iter) :=
   match it.err with
   | some _ => none
   | none => match it.rows[it.pos]? with
     | some r => some (r, { it with pos := it.pos + 1 })
     | none => none
 
-/-- scripted cluster: page i is `pages[i]`, its paging state is `i+1` iff it is not the last page;
-    the request with state `i` is answered with page `i`; fetching page `failAt` fails -/
-def script (pages : List (List ρ)) (failAt : Option Nat) (e : ε) : Exec ρ Nat ε := fun req =>
-  let i := req.getD 0
-  if failAt = some i then .error e
-  else match pages[i]? with
-    | some rows => .ok (rows, if i + 1 < pages.length then some (i + 1) else none)
-    | none => .error e
+/-! ## Specification (independent of Iter / Qry): what the application must receive and what the
+    server must receive, read off the script alone -/
+namespace Spec
+
+/-- rows: the pages in order up to the first failure or the first page without has_more_pages
+    (an UNPREPARED answer carries no rows and does not end anything) -/
+def rows : List Reply → List Int
+  | [] => []
+  | .unprepared :: rest => rows rest
+  | .fail _ :: _ => []
+  | .page r none :: _ => r
+  | .page r (some _) :: rest => r ++ rows rest
+
+/-- final error: the first failure, none if a last page comes first -/
+def err : List Reply → Option Fail
+  | [] => some .exhausted
+  | .unprepared :: rest => err rest
+  | .fail f :: _ => some f
+  | .page _ none :: _ => none
+  | .page _ (some _) :: rest => err rest
+
+/-- requests: `mk st` is THE request of this query with paging state `st` (everything else fixed);
+    the first carries the caller's state, each follow-up exactly the state of the page before; an
+    UNPREPARED answer makes the same request go out again (after a PREPARE if the statement is a
+    prepared one); a PREPARE precedes the first EXECUTE; nothing after a failure or a last page -/
+def reqs (mk : Option Bytes → Req) (prepared : Bool) : List Reply → Bool → Option Bytes → List Req
+  | [], needPrep, cur => (if prepared && needPrep then [.prepare] else []) ++ [mk cur]
+  | .unprepared :: rest, needPrep, cur =>
+    (if prepared && needPrep then [.prepare] else []) ++ mk cur :: reqs mk prepared rest true cur
+  | .fail _ :: _, needPrep, cur => (if prepared && needPrep then [.prepare] else []) ++ [mk cur]
+  | .page _ none :: _, needPrep, cur => (if prepared && needPrep then [.prepare] else []) ++ [mk cur]
+  | .page _ (some s) :: rest, needPrep, cur =>
+    (if prepared && needPrep then [.prepare] else []) ++ mk cur :: reqs mk prepared rest false (some s)
+
+end Spec
+
+/-- the one request shape of query `q`: only the paging state varies -/
+def template (q : Qry) (st : Option Bytes) : Req :=
+  .exec q.ident q.prepared (q.prepared && q.skipMeta) st (if q.pageSize > 0 then some q.pageSize else none)
+
+/-- the caller-supplied state as the server must see it -/
+def firstState (q : Qry) : Option Bytes := if q.pageState.length > 0 then some q.pageState else none
+
+/-- no paging state in the script is present-but-empty (the condition under which the request side of
+    the property holds on the unchanged code, see `C15_requests_partial`) -/
+def NoEmptyState : List Reply → Prop
+  | [] => True
+  | .page _ (some s) :: rest => s ≠ [] ∧ NoEmptyState rest
+  | _ :: rest => NoEmptyState rest
 
 end Paging
